@@ -472,11 +472,13 @@ impl<'a> Exec<'a> {
                             seen.borrow_mut().push(k);
                             match k {
                                 KeyPos::Enabled(i) => Val(b + i as u64),
-                                KeyPos::Disabled(_) => Val(u64::MAX),
+                                // a closure that is only defined on the enabled keys is a legitimate closure:
+                                // from_closure(f)[k] == f(k) has to hold for it too
+                                KeyPos::Disabled(d) => panic!("closure was handed disabled key #{}", d),
                             }
                         })
                     })
-                    .map_err(|m| fail("panic", "no panic".into(), m))?;
+                    .map_err(|m| fail("panic", "no panic (the closure is defined on every enabled key)".into(), m))?;
                     self.note(|| format!("{} -> closure saw {:?}", op.line(), seen.borrow()));
                     self.nontrivial = true;
                     let model: Vec<Val> = (0..n as u64).map(|i| Val(b + i)).collect();
@@ -488,9 +490,9 @@ impl<'a> Exec<'a> {
                     let salt = *salt;
                     let real = catch(|| s.real.transform(&|k, old| match k {
                         KeyPos::Enabled(p) => g_fn(salt, p, old),
-                        KeyPos::Disabled(_) => Val(u64::MAX),
+                        KeyPos::Disabled(d) => panic!("closure was handed disabled key #{}", d),
                     }))
-                    .map_err(|m| fail("panic", "no panic".into(), m))?;
+                    .map_err(|m| fail("panic", "no panic (the closure is defined on every enabled key)".into(), m))?;
                     let model: Vec<Val> = s.model.iter().enumerate().map(|(p, old)| g_fn(salt, p, old)).collect();
                     if let Some(st) = stats.as_deref_mut() {
                         if s.writes > 0 {
